@@ -428,6 +428,68 @@ fn run_query_pairs(pre: u8) {
   ::std::mem::forget(dag);
 }
 
+/// C16 (graph half): `reorder_nodes` iterates two `HashSet`s, whose iteration order is unspecified (random per process).
+/// The same add_edge is applied to two identically built DAGs: on A the model yields the sets in a solver-chosen order,
+/// on B in slot order. Result, ranks and adjacency order must not depend on that order.
+fn run_c16(pre: u8) {
+  let (mut a, mut st) = setup(pre);
+  // twin built by the same script (payloads irrelevant here)
+  let mut b: G = DAG::default();
+  let mut nb = [Node(Default::default()); NH];
+  let mut nhb = 0usize;
+  let mut i = 0; while i < 3 { nb[nhb] = b.add_node(0); nhb += 1; i += 1; }
+  let script = prestate(pre);
+  let mut i = 0;
+  while i < script.len() {
+    let (op, x, y) = script[i];
+    match op {
+      OP_ADD_EDGE => { let _ = b.add_edge(&nb[x], &nb[y], 0); }
+      OP_REMOVE_EDGE => { let _ = b.remove_edge(&nb[x], &nb[y]); }
+      OP_REMOVE_NODE => { let _ = b.remove_node(nb[x]); }
+      OP_REMOVE_OUT => { let _ = b.remove_outgoing_edges_of_node(&nb[x]); }
+      _ => { nb[nhb] = b.add_node(0); nhb += 1; }
+    }
+    i += 1;
+  }
+  split((NH * NH) as u8, |k| {
+    let (x, y) = ((k as usize) / NH, (k as usize) % NH);
+    if x >= st.rf.nh || y >= st.rf.nh { return; }
+    std::kcoll::set_symbolic_order(true);
+    let ra = a.add_edge(&st.nodes[x], &st.nodes[y], 1);
+    std::kcoll::set_symbolic_order(false);
+    let rb = b.add_edge(&nb[x], &nb[y], 1);
+    assert!(ra == rb, "C16 add_edge result is independent of hash-set iteration order");
+    let mut h = 0;
+    while h < st.rf.nh {
+      if st.rf.alive[h] {
+        assert!(a.topo_cmp(&st.nodes[h], &st.nodes[x]) == b.topo_cmp(&nb[h], &nb[x]), "C16 resulting topological order is independent of hash-set iteration order");
+        assert!(a.topo_cmp(&st.nodes[h], &st.nodes[y]) == b.topo_cmp(&nb[h], &nb[y]), "C16 resulting topological order is independent of hash-set iteration order (2)");
+      }
+      h += 1;
+    }
+    // ranks still a valid order on A
+    if ra.is_ok() { if ra == Ok(true) { st.rf.data[x][y] = Some(1); } check_ranks(&a, &mut st); }
+    vcover!(ra == Ok(true) && st.ranks[x] < st.ranks[y], "an accepted edge (possibly after a reorder)");
+  });
+  ::std::mem::forget(a); ::std::mem::forget(b);
+}
+
+//@h props=C16 tier=quick unwind=45 stubs=sort timeout=1200
+fn c16_reorder_independent_of_set_order_pre2() { run_c16(2); }
+//@h props=C16 tier=quick unwind=45 stubs=sort timeout=1200
+fn c16_reorder_independent_of_set_order_pre5() { run_c16(5); }
+//@h props=C16 tier=thorough unwind=45 stubs=sort timeout=1200
+fn c16_reorder_independent_of_set_order_pre9() { run_c16(9); }
+//@h props=C16 tier=quick unwind=45 stubs=sort timeout=1200
+fn c16_reorder_independent_of_set_order_pre10() { run_c16(10); }
+//@h props=C16 tier=quick unwind=45 stubs=sort timeout=1200
+fn c16_reorder_independent_of_set_order_pre11() { run_c16(11); }
+//@h props=C16 tier=thorough unwind=45 stubs=sort timeout=1200
+fn c16_reorder_independent_of_set_order_pre13() { run_c16(13); }
+//@h props=C16 tier=thorough unwind=45 stubs=sort timeout=1200
+fn c16_reorder_independent_of_set_order_pre7() { run_c16(7); }
+//@h props=C16 tier=thorough unwind=45 stubs=sort timeout=1200
+fn c16_reorder_independent_of_set_order_pre12() { run_c16(12); }
 //@h props=C10 tier=quick unwind=45 stubs=sort
 fn c10_step_pre0() { run::<0>(0, 1, 7, NH); }
 //@h props=C10 tier=quick unwind=45 stubs=sort
